@@ -207,7 +207,8 @@ ReqOf(ev) ==
                   => ev.out = "Ok" /\ ev.obs.pubRaw = ev.args.pubRaw /\ ev.obs.alg = ev.args.alg>>,
             <<"C16.exported_spki_is_the_keys_spki", ev.args.exportedSpkiEqOpenssl>>,
             <<"C16.signed_under_one_back_end_verifies_elsewhere", ev.args.certSigOk.openssl = "ok" /\ ev.args.certSigOk.ring \in {"ok", "na"}>>,
-            <<"C16.auto_detected_key_has_same_public_key", ev.out = "Ok" => ev.obs.pubRaw = ev.args.pubRaw>> }
+            <<"C16.auto_detected_key_has_same_public_key", ev.out = "Ok" => ev.obs.pubRaw = ev.args.pubRaw>>,
+            <<"C16.transferred_key_signs_verifiably", ev.out = "Ok" => ev.obs.sigOk.openssl = "ok" /\ ev.obs.sigOk.ring \in {"ok", "na"}>> }
      [] ev.op = "CliRun" -> ReqCli(ev.be, ev.args.opts, ev.obs)
      [] ev.op = "ImportCa" -> ReqImportEv(ev)
      [] ev.op = "Chain" -> ReqChain(ev.args, ev.out, ev.obs)
